@@ -168,7 +168,10 @@ var solvers = []solverSpec{
 }
 
 // solveSem limits the number of concurrent solver races.
-var solveSem = make(chan struct{}, runtime.NumCPU())
+var solveSem = make(chan struct{}, (runtime.NumCPU()*3+3)/4)
+
+// KeepQueries keeps every query file (debugging).
+var KeepQueries = os.Getenv("GOCV_KEEPQ") != ""
 
 // ScratchDir is where query files are written.
 var ScratchDir = os.TempDir()
@@ -249,7 +252,21 @@ func solveRaw(q *Query, secs int, only ...string) Result {
 			continue
 		}
 		started++
-		go func(sp solverSpec) {
+		delay := time.Duration(0)
+		if started > 1 && len(only) == 0 {
+			// staged race: most goals are decided by the first solver
+			// within a second; the others join only when it is slow
+			delay = 1500 * time.Millisecond
+		}
+		go func(sp solverSpec, delay time.Duration) {
+			if delay > 0 {
+				select {
+				case <-time.After(delay):
+				case <-ctx.Done():
+					ch <- Result{Status: "unknown", Solver: sp.name, File: file}
+					return
+				}
+			}
 			a := sp.args(file, secs)
 			t0 := time.Now()
 			cmd := exec.CommandContext(ctx, a[0], a[1:]...)
@@ -271,7 +288,7 @@ func solveRaw(q *Query, secs int, only ...string) Result {
 				st = "error"
 			}
 			ch <- Result{Status: st, Solver: sp.name, Seconds: time.Since(t0).Seconds(), Output: o, File: file}
-		}(sp)
+		}(sp, delay)
 	}
 	var best Result
 	best.Status = "unknown"
@@ -283,7 +300,7 @@ func solveRaw(q *Query, secs int, only ...string) Result {
 			if r.Status == "sat" && len(q.Values) > 0 {
 				r.Model = parseValues(r.Output, q.Values)
 			}
-			if r.Status == "unsat" {
+			if r.Status == "unsat" && !KeepQueries {
 				os.Remove(file)
 			}
 			return r
